@@ -88,13 +88,15 @@ def pair_features(a: str, b: str) -> list[str]:
 
 
 def run_namespace_level(ctx: Ctx) -> None:
-    rec = ctx.rec
     npairs = 30 if ctx.quick else 400
     kinds = ["properties", "parameters", "schemas", "enum_members", "operations"]
     kind = kinds[ctx.shard % len(kinds)]
-    pairs = choose_pairs(ctx, kind, npairs)
+    run_pairs(ctx, kind, choose_pairs(ctx, kind, npairs), f"ns{ctx.shard}")
+
+
+def run_pairs(ctx: Ctx, kind: str, pairs: list[tuple[str, str]], pkg: str) -> None:
+    rec = ctx.rec
     root = ctx.scratch.new("ns")
-    pkg = f"ns{ctx.shard}"
     schemas: dict = {"Anchor": {"type": "object", "properties": {"x": {"type": "string"}}}}
     paths: dict = {"/op0/anchor": {"get": {"operationId": "getAnchor", "tags": ["anchor"], "responses": {"200": {"description": "ok"}}}}}
     for k, (a, b) in enumerate(pairs):
@@ -256,4 +258,5 @@ def run_namespace_level(ctx: Ctx) -> None:
 
 
 def replay(ctx: Ctx, file: dict) -> None:
-    ctx.rec.inconclusive.append("namespace-level replays re-run the shard workload: use ./check C20 with the same VERIF_SEED")
+    c = file["case"]
+    run_pairs(ctx, c["namespace"], [tuple(c["pair"])], "nsreplay")
